@@ -214,6 +214,26 @@ def check(model, R, tier):
                     ok = True
                 if isinstance(p, ast.Subscript) and p.slice is c:
                     ok = True       # id-keyed dict lookup
+                if isinstance(p, ast.DictComp) and p.key is c:
+                    # {id(x): x for x in seq}: first-occurrence de-duplication in insertion order - fine while the keys themselves never come out again
+                    q = parents.get(id(p))
+                    if isinstance(q, ast.Assign) and len(q.targets) == 1 and isinstance(q.targets[0], ast.Name) and q.value is p:
+                        d_ = q.targets[0].id
+                        lds = [u for u in ast.walk(fn.node) if isinstance(u, ast.Name) and u.id == d_ and isinstance(u.ctx, ast.Load)]
+                        def _value_use(u):
+                            pu = parents.get(id(u))
+                            gu = parents.get(id(pu)) if pu is not None else None
+                            if isinstance(pu, ast.Attribute) and pu.attr == 'values' and isinstance(gu, ast.Call) and gu.func is pu:
+                                return True
+                            if isinstance(pu, ast.Call) and dotted(pu.func) == 'len':
+                                return True
+                            if isinstance(pu, ast.Compare) and u in pu.comparators and all(isinstance(o, (ast.In, ast.NotIn)) for o in pu.ops):
+                                return True
+                            return isinstance(pu, ast.Subscript) and pu.value is u
+                        stores_ = [u for u in ast.walk(fn.node) if isinstance(u, ast.Name) and u.id == d_ and isinstance(u.ctx, ast.Store)]
+                        ok = len(stores_) == 1 and bool(lds) and all(_value_use(u) for u in lds)
+                    elif isinstance(q, ast.Attribute) and q.attr == 'values' and q.value is p:
+                        ok = True
                 R.ob('C19.NOADDR', fn.qualname, norm(p)[:80] if p is not None else norm(c), ok, 'an object address / hash flows into a value: results would depend on the allocation layout', '%s:%d' % (fn.mod.relpath, c.lineno))
     if n_id == 0:
         R.ob('C19.NOADDR', 'synapgrad', 'no id()/hash() call outside visual/', True, '', '')
